@@ -342,6 +342,9 @@ type Agent struct {
 	Reloader *run.Reloader
 	Orc      base.Orchestrator
 	Addr     string
+	CfgPath  string   // the configuration file (reload tests rewrite it)
+	Root     string   // scenario directory
+	UpAddrs  []string // upstream addresses by output
 	stopIn   func()
 }
 
@@ -619,6 +622,7 @@ func Run(sc Scenario, work string, hk Hooks) (*Obs, error) {
 		if err != nil {
 			return nil, fmt.Errorf("gen %d: %w", gi, err)
 		}
+		a.CfgPath, a.Root, a.UpAddrs = cfgPath, root, addrs
 		if hk.OnAgent != nil {
 			hk.OnAgent(gi, a)
 		}
